@@ -93,6 +93,30 @@ Theorem C04_rekey_after_2_60_as_responder : forall s idx v pkts,
 Proof. exact rekey_after_2_60_as_responder. Qed.
 Print Assumptions C04_rekey_after_2_60_as_responder.
 
+(* Bind errors.  A transport batch whose Bind.Send fails after k datagrams puts
+   exactly the first k transmissions of the error-free step on the wire and
+   leaves the device in the state of the error-free step: the counters of the
+   refused datagrams are consumed, they are never numbered or emitted again. *)
+Theorem C04_refused_batch_consumes_counters : forall s pkts k lost,
+  staged s = [] -> pkts <> [] ->
+  let r1 := dstep s (TunBatch pkts) in
+  let r2 := dstep s (TunBatchErr pkts k lost) in
+  cur (fst r2) = cur (fst r1) /\ nxt (fst r2) = nxt (fst r1) /\ staged (fst r2) = staged (fst r1) /\
+  o_tx (snd r2) = firstn k (o_tx (snd r1)).
+Proof. exact refused_batch_consumes_counters. Qed.
+Print Assumptions C04_refused_batch_consumes_counters.
+
+(* An initiation the bind refuses still counts as an attempt (nothing on the
+   wire, packets stay staged, the handshake stays pending) and the retransmit
+   timer (RekeyTimeout + jitter later) repeats it. *)
+Theorem C04_refused_initiation_is_retried : forall s k pkts,
+  cur s = Some k -> Reject <= knonce k -> pkts <> [] -> init_ok s = true ->
+  let '(s1, o1) := dstep s (TunBatchIErr pkts) in
+  o_tx o1 = [] /\ o_init o1 = 0 /\ pending s1 = true /\ staged s1 = stage (staged s) pkts /\
+  o_init (snd (dstep s1 Retransmit)) = 1.
+Proof. exact refused_initiation_is_retried. Qed.
+Print Assumptions C04_refused_initiation_is_retried.
+
 (* Slice model, every history: with fresh receiver indices from the remote
    party and hook calls that only raise the counter, no (receiver index, counter)
    pair is ever sent twice and every counter is below the limit. *)
@@ -146,4 +170,17 @@ Example C04_nonvacuous_responder :
     {| o_tx := []; o_init := 0 |}; {| o_tx := []; o_init := 0 |};
     {| o_tx := [(9, Reject - 1, 4)]; o_init := 1 |};
     {| o_tx := [(10, 0, 5)]; o_init := 0 |} ].
+Proof. vm_compute. reflexivity. Qed.
+
+(* Bind errors: a batch of 4 of which 2 go out before the error; the next batch
+   continues after the consumed counters; a refused initiation is repeated by the
+   retransmit timer and the held packet goes out under the new key. *)
+Example C04_nonvacuous_bind_errors :
+  outs dstep dinit [TunBatch [1]; Answer 7; TunBatchErr [2; 3; 4; 5] 2 [4; 5]; TunBatch [6];
+                    AllowInit; SetNonce Reject; TunBatchIErr [7]; Retransmit; Answer 8] =
+  [ {| o_tx := []; o_init := 1 |}; {| o_tx := [(7, 0, 1)]; o_init := 0 |};
+    {| o_tx := [(7, 1, 2); (7, 2, 3)]; o_init := 0 |}; {| o_tx := [(7, 5, 6)]; o_init := 0 |};
+    {| o_tx := []; o_init := 0 |}; {| o_tx := []; o_init := 0 |};
+    {| o_tx := []; o_init := 0 |}; {| o_tx := []; o_init := 1 |};
+    {| o_tx := [(8, 0, 7)]; o_init := 0 |} ].
 Proof. vm_compute. reflexivity. Qed.
